@@ -313,6 +313,54 @@ def run_meta(prop, tier, w, vh, seed):
     return res
 
 
+BOX_CLAUSES = ["TruthfulOnce", "FallbackResult", "FallbackTarget", "FallbackWrapped", "CancelledNeverSent", "DelayedOnce"]
+
+
+def run_box(prop, tier, w, vh, seed):
+    """C02: bounded mailbox with a fallback process; delayed sends racing with their cancellation"""
+    rng = random.Random(seed * 17 + 3)
+    fb = []; dl = []
+    for mode in ("on", "off", "unknown", "self"):
+        for via in ("pid", "name", "alias"):
+            for cap in (1, 2, 3):
+                for prio in (("normal", "high", "max") if (tier == "thorough" or via == "pid") else ("normal",)):
+                    fb.append({"id": len(fb) + 1, "cap": cap, "mode": mode, "via": via, "n": cap + rng.choice([1, 2, 4]), "prio": prio})
+    for k in range(20 if tier == "quick" else 300):
+        n = 24
+        delays = [rng.choice([300, 800, 1500, 3000, 6000]) for _ in range(n)]
+        cancels = []
+        for d in delays:
+            r = rng.random()
+            cancels.append(-1 if r < 0.25 else max(0, d + rng.choice([-2000, -600, -200, -60, -20, 0, 20, 60, 200, 600])))
+        dl.append({"id": 10000 + k, "n": n, "delayus": delays, "cancelus": cancels})
+    inp = os.path.join(w, "box_in.json"); out = os.path.join(w, "box_trace.ndjson")
+    json.dump({"fallback": fb, "delayed": dl}, open(inp, "w"))
+    rc, so, se, to = vlib.run_vh(vh, ["box", "-in", inp, "-out", out], timeout=600)
+    res = {"scenario": "BOX", "violations": []}
+    if rc != 0 or to:
+        if vlib.crashed_in_repo(se):
+            res["violations"].append({"clause": "NoCrash", "plan": "box", "at_event": 0, "stderr": se[-3000:]})
+            return res
+        raise vlib.Infra("box harness failed rc=%s: %s" % (rc, (se or so)[-1200:]))
+    lines = open(out).read().splitlines()
+    fam.write_mc(w, "MC_BoxT", "Box", {}, {"TraceFile": '"box_trace.ndjson"', "Checks": fam.tla_set(BOX_CLAUSES)}, constraint="HWM", postcondition="TraceAccepted")
+    r = vlib.run_tlc(w, "MC_BoxT.tla", "MC_BoxT.cfg", workers=1, timeout=600)
+    if re.search(r'TRACE_REJECTED_AT_LINE', r.out):
+        raise vlib.Infra("Box.tla could not consume the trace: %s" % r.out[-800:])
+    hits = [(m.group(1), int(m.group(2))) for m in re.finditer(r'"CLAUSE_VIOLATED", "(\\w+)", "LINE", (\\d+)', r.out)]
+    if r.rc != 0 and not hits:
+        raise vlib.Infra("Box validation failed: %s" % (r.error or r.out[-1200:]))
+    for clause, line in hits:
+        e = json.loads(lines[line - 1])
+        res["violations"].append({"clause": clause, "plan": "box case %s" % json.dumps(e)[:500], "at_event": 0, "case": e})
+    cancelled = sum(1 for x in lines if '"delayed"' in x for c in json.loads(x)["cancel"] if c == "true")
+    late = sum(1 for x in lines if '"delayed"' in x for c in json.loads(x)["cancel"] if c == "false")
+    res["u1"] = {"distinct": r.distinct, "generated": r.generated}
+    res["obs"] = {"executions": len(lines) - len(res["violations"]), "accepted": True}
+    res["harness"] = {"plans": len(lines), "steps": sum(c["n"] for c in fb) + sum(c["n"] for c in dl), "stalls": 0, "cancel_won": cancelled, "cancel_lost": late}
+    return res
+
+
 def main(prop, tier):
     t0 = time.time()
     seed = vlib.seed()
@@ -341,6 +389,8 @@ def main(prop, tier):
             results.append(run_order(prop, tier, w, vh, seed))
         if prop in META_CLAUSES:
             results.append(run_meta(prop, tier, w, vh, seed))
+        if prop == "C02":
+            results.append(run_box(prop, tier, w, vh, seed))
         # the high-volume mode wants the cores for itself: run it after the controlled replays
         results.append(run_hammer(prop, tier, w, vh, 0, 0))
         if tier == "thorough" or prop == "C02":
